@@ -164,7 +164,7 @@ func flatParts(n *node, out *[]int64) {
 func genBig(r *rand.Rand, tier string) []string {
 	n := 14
 	if tier == "thorough" {
-		n = 260
+		n = 150
 	}
 	var out []string
 	for i := 0; i < n; i++ {
@@ -240,7 +240,7 @@ func genBig(r *rand.Rand, tier string) []string {
 	// parts far too long to drain (70000 ops/s for hours): the counts, and a few thousand tokens from the head
 	m := 6
 	if tier == "thorough" {
-		m = 120
+		m = 60
 	}
 	for i := 0; i < m; i++ {
 		rate := bigRates[r.Intn(len(bigRates))] + []float64{0, 0, 0.5}[r.Intn(3)]
